@@ -84,6 +84,20 @@ def as_test(e: ast.expr) -> ast.expr:
         return _loc(ast.UnaryOp(op=ast.Not(), operand=as_test(o)), e)
     if isinstance(e, ast.BoolOp):
         return _loc(ast.BoolOp(op=e.op, values=[as_test(v) for v in e.values]), e)
+    if isinstance(e, ast.IfExp):
+        # as a truth value: `False if c else X` is `not c and X`, `True if c else X` is `c or X`, and likewise for a constant else-arm
+        def const(x):
+            return x.value if isinstance(x, ast.Constant) and isinstance(x.value, bool) else None
+        b, o = const(e.body), const(e.orelse)
+        c = as_test(e.test)
+        if b is False:
+            return as_test(_loc(ast.BoolOp(op=ast.And(), values=[as_test(negate(c)), as_test(e.orelse)]), e))
+        if b is True:
+            return as_test(_loc(ast.BoolOp(op=ast.Or(), values=[c, as_test(e.orelse)]), e))
+        if o is False:
+            return as_test(_loc(ast.BoolOp(op=ast.And(), values=[c, as_test(e.body)]), e))
+        if o is True:
+            return as_test(_loc(ast.BoolOp(op=ast.Or(), values=[as_test(negate(c)), as_test(e.body)]), e))
     return e
 
 
@@ -1025,8 +1039,15 @@ class _Consumers(ast.NodeTransformer):
 
     def visit_Subscript(self, n):
         self.generic_visit(n)
-        # re.Match: m.span()[0] is m.start(), m.span()[1] is m.end()
         v = n.value
+        # (a, b)[1] is b when the elements that are dropped cannot have effects
+        if isinstance(n.ctx, ast.Load) and isinstance(v, ast.Tuple) and isinstance(n.slice, ast.Constant) and isinstance(n.slice.value, int) \
+                and not isinstance(n.slice.value, bool) and 0 <= n.slice.value < len(v.elts) and not any(isinstance(e, ast.Starred) for e in v.elts):
+            dropped = [e for k, e in enumerate(v.elts) if k != n.slice.value]
+            if all(not any(isinstance(x, (ast.Call, ast.Await, ast.Yield, ast.YieldFrom, ast.NamedExpr)) and not (
+                    isinstance(x, ast.Call) and isinstance(x.func, ast.Name) and x.func.id in _PURE_BUILTINS) for x in ast.walk(e)) for e in dropped):
+                return v.elts[n.slice.value]
+        # re.Match: m.span()[0] is m.start(), m.span()[1] is m.end()
         if isinstance(n.ctx, ast.Load) and isinstance(v, ast.Call) and isinstance(v.func, ast.Attribute) and v.func.attr == "span" and not v.args and not v.keywords \
                 and isinstance(n.slice, ast.Constant) and n.slice.value in (0, 1) and not isinstance(n.slice.value, bool):
             return _loc(ast.Call(func=_loc(ast.Attribute(value=v.func.value, attr="start" if n.slice.value == 0 else "end", ctx=ast.Load()), n), args=[], keywords=[]), n)
@@ -1081,6 +1102,7 @@ class Normalizer:
     # ---- N6 candidates
     def _find_helpers(self) -> Dict[str, object]:
         out = {}
+        self.capturing: Set[str] = set()
         for name, fis in self.by_name.items():
             if len(fis) != 1:
                 continue
@@ -1093,7 +1115,11 @@ class Normalizer:
             if fi.parent is None and not name.startswith("_"):
                 continue
             if fi.parent is not None and not self._closure_free(fi):
-                continue  # a nested function is a candidate when it captures nothing from the functions around it
+                # a closure: its body may still stand in place of a call made from the very function that defines it (it reads the
+                # same variables there), provided it only READS what it captures
+                if isinstance(fi.parent.node, ast.Lambda) or any(isinstance(n, (ast.Nonlocal, ast.Global)) for n in ast.walk(fn)):
+                    continue
+                self.capturing.add(name)
             decos = [norm(d) for d in fn.decorator_list]
             if any(d not in ("staticmethod", "classmethod") for d in decos):
                 continue
@@ -1303,6 +1329,11 @@ class Normalizer:
             cur = getattr(self, "_cur_fn", None)
             if recv is not None or cur is None or name not in getattr(self, "_visible", {}).get(id(cur), ()):
                 return None
+            if name in self.capturing:
+                pn = fi.parent.node
+                if not (getattr(cur, "name", None) == getattr(pn, "name", None) and getattr(cur, "lineno", None) == getattr(pn, "lineno", None)):
+                    return None   # a capturing closure is inlined only into its defining function
+                # … and only if the helper's own locals cannot be confused with the captured variables
         if any(isinstance(a, ast.Starred) for a in call.args) or any(k.arg is None for k in call.keywords):
             return None
         return fi, recv
@@ -1509,8 +1540,8 @@ class Normalizer:
         stmts = hb[:-1] if final is not None else hb
         if any(isinstance(n, ast.Return) for s in stmts for n in ast.walk(s)):
             return self._inline_multi_return(st, fn, fi, recv, call, mode, hb)
-        if not stmts and final is not None:
-            return None  # expression-bodied: handled by _ExprInliner
+        # (an expression-bodied helper is usually inlined by _ExprInliner; where that refuses — an argument that is not a plain
+        # name is used twice — the statement form below binds the argument to a temporary first)
         if mode != "expr" and (final is None or final.value is None):
             return None
         binding = self._bind(fi, recv, call)
@@ -1678,7 +1709,9 @@ class _ExprInliner(ast.NodeTransformer):
         body = copy.deepcopy(hb[0].value)
         for p, v in binding.items():
             uses = len(_loads(body, p))
-            if uses > 1 and not Normalizer._trivial(v):
+            pure_call = isinstance(v, ast.Call) and isinstance(v.func, ast.Name) and v.func.id in _PURE_BUILTINS and not v.keywords \
+                and all(Normalizer._trivial(a) for a in v.args)   # len(self.token): evaluating it twice changes nothing
+            if uses > 1 and not Normalizer._trivial(v) and not pure_call:
                 return n
         # names bound inside the expression (comprehension variables) must not capture argument names
         bound = {x.id for x in ast.walk(body) if isinstance(x, ast.Name) and isinstance(x.ctx, ast.Store)}
